@@ -1104,6 +1104,8 @@ class FS(object):
                 raise errors.IllegalDestination(dst_path)
             if not create and not self.exists(dst_path):
                 raise errors.ResourceNotFound(dst_path)
+            if not self.getinfo(_src_path).is_dir:
+                raise errors.DirectoryExpected(src_path)
             move_dir(self, src_path, self, dst_path, preserve_time=preserve_time)
 
     def makedirs(
